@@ -86,7 +86,7 @@ def batchStep (s : BatchSt) (line : String) : BatchSt × String :=
 
 structure SeqSt where
   s : SeqSys := {}
-  fixed : Bool := false
+  old : Bool := false      -- `reset old=1`: the lease machine before commit 54a0fc5 (historical)
   deriving Inhabited
 
 def seqResStr : SeqRes → String
@@ -101,12 +101,12 @@ def optNat : Option Nat → String
   | some n => toString n
 
 def seqStep (st : SeqSt) (line : String) : SeqSt × String :=
-  let lf : LeaseFn := if st.fixed then updateLeaseFixed else updateLease
+  let lf : LeaseFn := if st.old then updateLeaseOld else updateLease
   let s := st.s
   match words line with
   | "reset" :: rest =>
     let kv := kvArgs rest
-    ({ s := {}, fixed := argBool kv "fixed" }, "ok")
+    ({ s := {}, old := argBool kv "old" }, "ok")
   | ["new", id, bw] =>
     match id.toNat?, bw.toNat? with
     | some id, some bw =>
